@@ -17,27 +17,42 @@ struct Opt {
     C ab_scale = C(1, 0);         // T4
 };
 
-// one-port helper calibration used as "unrelated" content of the same vnacal_t
+// "Unrelated" content of the same vnacal_t: 0..8 further parameters (scalar, vector, unknown) made first, a one-port
+// helper calibration that uses some of them, and a random subset deleted again -- so the parameter handles of the
+// calibration under test are shifted, sparse and partly recycled.
 void add_unrelated(Ctx &c, vnacal_t *vcp, ErrLog &log) {
-    int h1 = vnacal_make_scalar_parameter(vcp, mkc(0.3, 0.1));
     double fv[2] = {1e6, 2e6}; dcx gv[2] = {mkc(0.1, 0.2), mkc(0.2, 0.1)};
+    std::vector<int> extra;
+    int k = (int)c.range(0, 8);
+    for (int i = 0; i < k; i++) {
+        int h;
+        switch (c.weighted({3, 2, 1})) {
+        case 0: h = vnacal_make_scalar_parameter(vcp, mkc(0.3 + 0.05 * i, 0.1)); break;
+        case 1: h = vnacal_make_vector_parameter(vcp, fv, 2, gv); break;
+        default: { int g = vnacal_make_scalar_parameter(vcp, mkc(0.2, -0.3 + 0.05 * i)); PBT_CHECK(c, g >= 0, "C17.unrelated", "make parameter failed: %s", log.text().c_str()); extra.push_back(g); h = vnacal_make_unknown_parameter(vcp, g); } break;
+        }
+        PBT_CHECK(c, h >= 0, "C17.unrelated", "make parameter failed: %s", log.text().c_str());
+        extra.push_back(h);
+    }
+    int h1 = vnacal_make_scalar_parameter(vcp, mkc(0.3, 0.1));
     int h2 = vnacal_make_vector_parameter(vcp, fv, 2, gv);
     PBT_CHECK(c, h1 >= 0 && h2 >= 0, "C17.unrelated", "make parameter failed: %s", log.text().c_str());
     vnacal_new_t *vnp = vnacal_new_alloc(vcp, VNACAL_T8, 1, 1, 2);
     PBT_CHECK(c, vnp != nullptr, "C17.unrelated", "new_alloc failed");
     vnacal_new_set_frequency_vector(vnp, fv);
     const dcx e00 = mkc(0.05, 0.02), e11 = mkc(-0.1, 0.05), e10e01 = mkc(0.8, 0.3);
-    int hs[3] = {VNACAL_SHORT, VNACAL_OPEN, VNACAL_MATCH}; double g[3] = {-1, 1, 0};
-    for (int k = 0; k < 3; k++) {
-        dcx mv[2]; for (int f = 0; f < 2; f++) mv[f] = e00 + e10e01 * g[k] / (1.0 - e11 * g[k]);
+    int hs[4] = {VNACAL_SHORT, VNACAL_OPEN, VNACAL_MATCH, h1}; dcx g[4] = {mkc(-1, 0), mkc(1, 0), mkc(0, 0), mkc(0.3, 0.1)};
+    for (int q = 0; q < 4; q++) {
+        dcx mv[2]; for (int f = 0; f < 2; f++) mv[f] = e00 + e10e01 * g[q] / (1.0 - e11 * g[q]);
         dcx *m[1] = {mv};
-        int rc = vnacal_new_add_single_reflect_m(vnp, m, 1, 1, hs[k], 1);
+        int rc = vnacal_new_add_single_reflect_m(vnp, m, 1, 1, hs[q], 1);
         PBT_CHECK(c, rc == 0, "C17.unrelated", "add failed: %s", log.text().c_str());
     }
     PBT_CHECK(c, vnacal_new_solve(vnp) == 0, "C17.unrelated", "solve of the unrelated calibration failed: %s", log.text().c_str());
     PBT_CHECK(c, vnacal_add_calibration(vcp, "unrelated", vnp) >= 0, "C17.unrelated", "add_calibration failed");
     vnacal_new_free(vnp);
     if (c.boolean()) vnacal_delete_parameter(vcp, h1);
+    for (int h : extra) if (c.boolean()) vnacal_delete_parameter(vcp, h);
     (void)h2;
 }
 
@@ -123,6 +138,25 @@ void pbt_property(Ctx &c) {
     long double kappa = 0;
     for (int f = 0; f < sc.F; f++) { vm::Ident id = ident_at(sc, f); if (!id.determining) { c.label("filtered:not-determining"); return; } kappa = std::max(kappa, id.kappa); }
     sc.dut = gen_dut(c, sc.P, sc.F);
+    // T5 also with self-calibration: an extra double reflect whose two ports carry the SAME unknown reflection (one
+    // handle used in two cells), guess within 10 % -- the handle identity must survive whatever else lives in the
+    // vnacal_t.  Both descriptions run the same iteration on the same data, so the comparison stays exact.
+    bool has_unknown = false;
+    if (T == 5 && sc.P >= 2 && !vm::is_16(sc.type) && c.boolean()) {
+        auto pp = g.perm_ports(2);
+        C r0 = rnd_disk(c, 0.5L, 1.0L);
+        Standard st = g.dbl(pp[0], pp[1], r0, r0, false, 0);
+        if (st.entry == Standard::DOUBLE && st.cells.size() == 2) {
+            UParam u; for (int f = 0; f < sc.F; f++) u.truth.push_back(r0);
+            C d = rnd_disk(c, 0, 0.1L); for (auto &t : u.truth) u.guess.push_back(t * (C(1, 0) + d));
+            sc.uparams.push_back(u);
+            for (auto &cell : st.cells) { cell.kind = SCell::SCALAR; cell.v = u.truth; cell.uparam = 0; cell.handle = -1; }
+            g.finish(st);
+            sc.stds.push_back(st);
+            bool det = true; for (int f = 0; f < sc.F; f++) if (!ident_with_unknowns(sc, f).determining) det = false;
+            if (det) { has_unknown = true; c.label("T5:shared-unknown"); } else { sc.stds.pop_back(); sc.uparams.clear(); }
+        }
+    }
     bool perturbed = c.boolean();
     if (T == 2 || T == 8) perturbed = false;             // "for data that fit the error model" / leakage samples differ
     if (T == 4 && !sc.ab) sc.ab = true;
@@ -172,7 +206,7 @@ void pbt_property(Ctx &c) {
     bool ok1 = run_once(c, sc, o1, out1, why1, sc.freq);
     bool ok2 = run_once(c, s2, o2, out2, why2, sc.freq);
     PBT_CHECK(c, ok1 == ok2, "C17.outcome_differs", "one description solved and the other did not: A: %s  B: %s", ok1 ? "ok" : why1.c_str(), ok2 ? "ok" : why2.c_str());
-    if (!ok1) { PBT_CHECK(c, perturbed, "C17.solve_failed", "exact well-conditioned data refused: %s", why1.c_str()); c.label("both-failed"); return; }
+    if (!ok1) { PBT_CHECK(c, perturbed || has_unknown, "C17.solve_failed", "exact well-conditioned data refused: %s", why1.c_str()); c.label("both-failed"); return; }
     long double worst = 0; int wf = 0, wi = 0, wj = 0;
     for (int f = 0; f < sc.F; f++) for (int i = 0; i < sc.P; i++) for (int j = 0; j < sc.P; j++) {
         C b = T == 8 ? out2[f](pi[i], pi[j]) : out2[f](i, j);
